@@ -25,6 +25,11 @@ package main
 //                call's outcome — observed at the Go level (Thread.Wait) and by the script).
 //   D. nested    thread trees of depth 2–3 (c10nest.go): spawned functions that spawn and return.
 //   E. tree      schedules of the model's thread tree step by step on real script threads (c10tree.go).
+//   F. close races  produce-then-close on buffered channels (c10race.go): other threads' operations
+//                run at the context call-outs of a Receive/Next/Send (deterministic linearisability
+//                check), and hundreds of thousands of short rounds on real goroutines and script threads.
+//   G. spawned builtins  builtins and bound methods with callbacks (map/each/filter/sorted/call/try),
+//                all three spawn forms, the spawner running script code meanwhile; in a child process (c10vms.go).
 
 import (
 	"context"
@@ -61,10 +66,18 @@ func c10_runC10(e *Env) {
 		"non-trivial when some thread is at depth >= 2 and >= 50 values pass; distinct by (tree, forms, buffers, counts, styles, GOMAXPROCS, yields). " +
 		"E: random schedules (8..40 steps, up to 9 threads, 1..2 channels cap 0..3) of the model's thread tree — spawn by any live thread (spawn()/fn.spawn()/go), return, wait, send/receive/close/handoff — " +
 		"executed step by step on real script threads (every thread runs a command loop), each thread's context read by the host after every step; " +
-		"non-trivial when >= 2 channel operations are by threads one of whose ancestors has returned; distinct by (caps, forms, op list)"
+		"non-trivial when >= 2 channel operations are by threads one of whose ancestors has returned; distinct by (caps, forms, op list). " +
+		"F1: call-out schedules on one real object.Chan (cap 1..8): prefix of sends/receives, then a Receive | Next | Send called with a context whose k-th call-out (Done/Err/Value/Deadline, k 0..3) runs a burst of other threads' operations (0..3 sends and a close; a receive or a close for a Send), then a drain; " +
+		"judged against both placements of the call as one atomic step (C10 pclose); non-trivial when the call is a receive that is not enabled before the burst, the burst closes, and it ran inside the call; distinct by (cap, prefix, op, burst, k, drain). " +
+		"F2/F3: produce-then-close rounds = (buffer 1..8, 1..n values then close at once, consumers recv | iter | recv+recv | iter+recv) run thousands of times each on real goroutines at the object.Chan API (GOMAXPROCS 2/4/16, cancellable context) and by script worker threads " +
+		"(producer started with go | spawn() | fn.spawn(), consumer <-c | c.receive() | range | for-in | range plus a second consumer thread); ONE case per (level, shape, GOMAXPROCS) however many rounds it was run (round counts are in the notes); every such case is non-trivial. " +
+		"G: spawned-builtin scenarios = 1..3 callables out of list.map (1 and 2 parameters) | list.each | list.filter | sorted(items, cmp) | call(f, n) | try(f, handler), each started with spawn(b,…) | b.spawn(…) | go b(…), their callbacks feeding one channel (cap 0..4) that the spawner " +
+		"(main program or a spawned coordinator) consumes with <-out | out.receive() while keeping sums of its own, optionally a second consumer thread, then wait(); run in a child process; non-trivial when the spawner receives >= 5 values; distinct by (cap, GOMAXPROCS, spawner, receive form, consumer quota, salt, callables)"
 	prev := runtime.GOMAXPROCS(0)
 	defer runtime.GOMAXPROCS(prev)
 	c10ChanOps(e)
+	c10CloseRaces(e)
+	c10SpawnBuiltins(e)
 	c10Spawn(e)
 	c10Tree(e)
 	c10Nested(e)
@@ -125,7 +138,14 @@ func c10_withWatch(f func()) bool {
 	case <-done:
 		return true
 	case <-time.After(c10Wait):
-		return false
+		// the deadline has passed.  When the whole process (or the machine) was stalled, or the
+		// clock jumped, the timer and f are both due at once: look again before calling it a hang
+		select {
+		case <-done:
+			return true
+		case <-time.After(3 * time.Second):
+			return false
+		}
 	}
 }
 
